@@ -650,6 +650,12 @@ def _edited_upstream(repo, rep):
     from .c12 import _extent
     L.borrow(repo, rep, "R11.2", "C12", _extent,
              ("decoded-before-ref", "unescaped-before-ref"), minimum=3)
+    # ... and a valid template is never rejected: the clause splitter has
+    # to work on the text as written (decoded first, 'a&amp;b; y 2' reads
+    # 'a&b; y 2' and '&b;' is protected like an entity)
+    from .c07 import _split_on_written_text
+    L.borrow(repo, rep, "R11.5", "C07", _split_on_written_text,
+             ("split-after-decode",))
     f = repo.func("chameleon.tales.TalesExpr.__call__")
     edits = []
     for n in ast.walk(f.node):
